@@ -22,6 +22,19 @@ def fbits(x):
     return [1 if x < 0 else 0, int(m * 2 ** 53), e - 53]
 
 
+def meta_of(mido, meta, label, dt):
+    """a meta message that is no tempo change: whatever it says (a time signature in eighths or halves, a key, an SMPTE offset), the tempo
+    map is made of set_tempo messages alone"""
+    if meta == 2:
+        n = len(label)
+        return mido.MetaMessage('time_signature', numerator=[6, 2, 3, 12, 7][n % 5], denominator=[8, 2, 16, 8, 1][n % 5], time=dt)
+    if meta == 3:
+        return mido.MetaMessage('key_signature', key=['C', 'F#m', 'Bb'][len(label) % 3], time=dt)
+    if meta == 4:
+        return mido.MetaMessage('smpte_offset', frame_rate=25, hours=1, minutes=2, seconds=3, frames=4, time=dt)
+    return mido.MetaMessage('marker', text=label, time=dt)
+
+
 def mkfile(tpb, evs, ntracks=1, typ=1):
     """evs: list of (dt, tempo or -1, meta?) for ONE merged stream; spread over tracks is done by the caller when wanted"""
     import mido
@@ -31,7 +44,7 @@ def mkfile(tpb, evs, ntracks=1, typ=1):
         if tempo >= 0:
             tr.append(mido.MetaMessage('set_tempo', tempo=tempo, time=dt))
         elif meta:
-            tr.append(mido.MetaMessage('marker', text=str(i), time=dt))
+            tr.append(meta_of(mido, meta, str(i), dt))
         else:
             tr.append(mido.Message('note_on', note=i % 128, velocity=(i // 128) % 128, time=dt))
     mf.tracks.append(tr)
@@ -47,7 +60,7 @@ def mkfile_tracks(tpb, tracks_evs, typ=1):
             if tempo >= 0:
                 tr.append(mido.MetaMessage('set_tempo', tempo=tempo, time=dt))
             elif meta:
-                tr.append(mido.MetaMessage('marker', text='%d:%d' % (ti, i), time=dt))
+                tr.append(meta_of(mido, meta, '%d:%d' % (ti, i), dt))
             else:
                 tr.append(mido.Message('note_on', channel=ti % 16, note=i % 128, velocity=(i // 128) % 128, time=dt))
         mf.tracks.append(tr)
@@ -88,7 +101,7 @@ def random_events(rng, n=None, tempos=True):
         if tempos and r < 0.25:
             evs.append((dt, rng.choice([0, 1, 2, 250000, 500000, 500000, 600000, 16777215, rng.randrange(16777216)]), 1))
         elif r < 0.4:
-            evs.append((dt, -1, 1))
+            evs.append((dt, -1, rng.choice([1, 1, 2, 2, 3, 4])))
         else:
             evs.append((dt, -1, 0))
     return evs
